@@ -30,7 +30,8 @@ RULE = (
     'a remove of a present task or a re-add, after which (all observers run '
     'after every step) at least two live entries tie in priority (score: >=2 '
     'equal times; exitq: tie and a removal). Distinct '
-    'by sha1 of the canonical case JSON.')
+    'by sha1 of the canonical case JSON.'
+    " nrt_reset stage: C05 programs with tempo changes preceded by abandoned statements and main.reset(). exitq runs the library's own shutdown over a queue filled by the case, with actions registering/removing actions while it runs.")
 ASSUMPTIONS = [
     'TaskQueue is documented as not thread safe; histories are sequential.',
     'Ppar tie order is exercised in C14, score order additionally in C07.',
